@@ -16,6 +16,12 @@ of a soft kill is a *fault* (`SAVE … kind=fault`, theorem `failed_save_leaves_
 entry must be absent or load correctly at EVERY such point; a poisoned entry after a soft kill is a
 real violation, never a known finding (the F13a/F13b windows are for hard kills only).
 
+LATER RUN ON OTHER BACKENDS (kind 'ctx'): for a task whose value depends on the Lab context through
+`.get(key, default)`, a handful of hard-kill points are followed, in the fresh interpreter, by
+`run_tasks` on the SPAWN (and fork) backend with that context, then by one more serial Lab: the outcome
+must be "fails to load" (known finding inside the windows) or the CORRECT value — a wrong value
+returned or newly stored is a plain violation.
+
 * poisoned inside a window the model proves poisoned  -> violation with known_match (KNOWN-FINDING)
 * poisoned where the model proves safe, a load returning a wrong value, an entry that appears before
   the save touched anything                            -> real violation (exit 1)
@@ -58,7 +64,8 @@ def kill_case(case, root):
     if mode == 'over':
         T.GEN = 0
         t0 = Type(idx)
-        r0 = labtech.Lab(storage=sd, runner_backend='serial').run_tasks([t0], disable_progress=True, disable_top=True)
+        r0 = labtech.Lab(storage=sd, runner_backend='serial', context={'gen': 0, 'scale': 10}).run_tasks(
+            [t0], disable_progress=True, disable_top=True)
         if t0 not in r0:
             return dict(case=case, infra='the preparing save of an overwrite case failed')
         old_start = t0.result_meta.start.isoformat()
@@ -103,7 +110,7 @@ def kill_case(case, root):
             if inj[0] == 'line':
                 tracer = W.LineTracer(st, target=inj[1], action=lambda info: die(st, dict(line_info=info)))
                 sys.settrace(tracer)
-            lab = labtech.Lab(storage=st, runner_backend='serial')
+            lab = labtech.Lab(storage=st, runner_backend='serial', context={'gen': 1, 'scale': 10})
             try:
                 lab.run_tasks([Type(idx)], bust_cache=(mode == 'over'), disable_progress=True, disable_top=True)
             except BaseException:
@@ -161,12 +168,77 @@ def verify_main(spec_path, out_path):
             for k in kd:
                 for f in sorted(os.listdir(os.path.join(rec['dir'], 'store', k))):
                     files[f] = os.path.getsize(os.path.join(rec['dir'], 'store', k, f))
-            obs = c12.observe_entry(os.path.join(rec['dir'], 'store'), c['kind'], c['idx'], old_start, T, labtech)
+            if c['kind'] == 'ctx':
+                obs = observe_ctx(os.path.join(rec['dir'], 'store'), c, old_start, T, labtech, rec['dir'])
+            else:
+                obs = c12.observe_entry(os.path.join(rec['dir'], 'store'), c['kind'], c['idx'], old_start, T, labtech)
             out.append(dict(rec, files=files, **obs))
         except BaseException:
             import traceback
             out.append(dict(case=rec['case'], infra=traceback.format_exc()[-800:]))
     json.dump(out, open(out_path, 'w'), default=str)
+
+
+def observe_ctx(storage_dir, c, old_start, T, labtech, d):
+    """the later run happens on the SPAWN / FORK / serial backend, with a Lab context, for a task whose
+    value depends on the context through `.get(key, default)`; then one more fresh Lab reads what is
+    now stored. Same classes as c12.observe_entry; a value that is neither the old nor the new save's
+    is WRONG."""
+    ctx = {'gen': 1, 'scale': 10}
+    log = os.path.join(d, 'exec3.log')
+    os.environ['VERIF_SAVE_LOG'] = log
+    T.EXEC_LOG = None
+
+    def cls(v):
+        for g, name in ((0, 'old'), (1, 'new')):
+            if v == T.ctx_result(c['idx'], g, 10):
+                return name
+        return 'WRONG'
+
+    def execs():
+        try:
+            return sum(1 for _ in open(log))
+        except OSError:
+            return 0
+    Type = T.KINDS['ctx']
+    lab = labtech.Lab(storage=storage_dir, runner_backend=c.get('obs', 'spawn'), max_workers=1, context=ctx,
+                      continue_on_failure=True)
+    t = Type(c['idx'])
+    cached = bool(lab.is_cached(t))
+    try:
+        lst = lab.cached_tasks([Type])
+        listed = 'no'
+        for x in lst:
+            if x == t:
+                listed = 'yes:' + ('old' if (old_start is not None and x.result_meta is not None and x.result_meta.start == old_start) else 'new')
+    except BaseException:
+        listed = 'raises'
+    before = execs()
+    try:
+        r = lab.run_tasks([t], disable_progress=True, disable_top=True)
+        err = None
+    except BaseException as e:
+        r, err = {}, type(e).__name__
+    executed = execs() - before
+    if t in r:
+        if executed:
+            load = 'ran:' + cls(r[t])
+        else:
+            load = f"ok:{cls(r[t])}:{'old' if (old_start is not None and t.result_meta.start == old_start) else 'new'}"
+    else:
+        load = 'fails'
+    # what every later Lab (any backend) now gets
+    lab2 = labtech.Lab(storage=storage_dir, runner_backend='serial', context=ctx, continue_on_failure=True)
+    t2 = Type(c['idx'])
+    was_cached = bool(lab2.is_cached(t2))
+    try:
+        r2 = lab2.run_tasks([t2], disable_progress=True, disable_top=True)
+        after = cls(r2[t2]) if t2 in r2 else 'fails'
+    except BaseException as e:
+        after = 'fails'
+    if after == 'WRONG':
+        load = load + '+later:WRONG' + ('(cached)' if was_cached else '')
+    return dict(cached=cached, listed=listed, load=load, executed=executed, err=err, after=after)
 
 
 def run_phase(flag, payloads, timeout):
@@ -240,8 +312,8 @@ def model_of(rec, dry):
 
 def real_obs(rec):
     load = rec['load']
-    if load.startswith('ran:'):
-        load = 'fails'
+    if load.startswith('ran:') and not rec['cached']:
+        load = 'fails'     # not cached: the task is simply executed (the model's load of an absent entry)
     return f"cached={int(rec['cached'])} load={load} listed={rec['listed']} raised=0"
 
 
@@ -277,7 +349,8 @@ def evaluate(recs, dry_of):
         rep = dict(kind='save-crash', case=c, k=rec['k'], durable=rec['durable'], real=rec['real'], model=mo,
                    files=rec.get('files'))
         if 'WRONG' in rec['load']:
-            violations.append(dict(what='after a kill during a save a later run_tasks returned a WRONG value (' + rec['load'] + ')',
+            how = f" on the '{c['obs']}' backend with a Lab context" if c.get('obs') else ''
+            violations.append(dict(what=f'after a kill during a save a later run_tasks{how} returned or newly cached a WRONG value instead of failing (' + rec['load'] + ')',
                                    replay=rep))
         elif poisoned(rec) and soft:
             violations.append(dict(what=f"a {'Ctrl-C (SIGINT -> KeyboardInterrupt)' if c['sig'] == 'int' else 'SystemExit'} landing mid-save (micro-step {rec['k']}) in the process executing the task left an entry that is reported cached and {'fails to load' if rec['load'] == 'fails' else 'loads ' + rec['load']}: {rec['real']}",
@@ -338,6 +411,19 @@ def enumerate_cases(tier, dry_of):
                                       sig='int' if c % 2 == 0 else 'exit'))
                 # a kill after the save (the task completed): trigger that never fires
                 cases.append(dict(kind=kind, idx=idx, mode=mode, inj=['line', 10 ** 6], flush=0, sig='kill'))
+    # context-dependent task, later run on the spawn / fork backend: a handful of hard-kill points
+    # before, inside and after the windows
+    c = 0
+    for mode in ('first', 'over'):
+        for idx in ([0] if tier == 'quick' else [0, 2]):
+            dry = dry_of[('ctx', idx, mode)]
+            n1, m1 = dry['n1'], dry['m1']
+            pts = [('fh_enter', 0), ('fh_exit', 0), ('write_pre', 0, n1 // 2), ('close_post', 0), ('fh_exit', 1),
+                   ('write_split', 1, 0), ('close_pre', 1), ('close_post', 1)]
+            for p in pts:
+                for obs in (('spawn', 'fork') if (tier == 'thorough' or p[0] in ('close_post', 'fh_exit', 'write_split')) else ('spawn',)):
+                    c += 1
+                    cases.append(dict(kind='ctx', idx=idx, mode=mode, inj=list(p), flush=1, sig='kill', obs=obs))
     return cases
 
 
@@ -363,7 +449,7 @@ def run(ctx):
         case = (rp.get('replay') or {}).get('case')
         if case is None:
             return dict(infra_error='replay file holds no save-crash case')
-        dry_of = c12.dry_runs()
+        dry_of = c12.dry_runs(kinds=('pickle', 'json', 'ctx'))
         recs, errors = explore([case], dry_of, 1, 120)
         if errors or any(r.get('infra') for r in recs):
             return dict(infra_error='; '.join(errors + [r['infra'] for r in recs if r.get('infra')]))
@@ -372,7 +458,7 @@ def run(ctx):
                     samples=[recs[0].get('real')], violations=viol, disagreements=dis)
     if not ctx['driver_ok']:
         return dict(evaluations=0, disagreements=[dict(diff='driver does not build')], violations=[])
-    dry_of = c12.dry_runs()
+    dry_of = c12.dry_runs(kinds=('pickle', 'json', 'ctx'))
     cases = enumerate_cases(tier, dry_of)
     recs, errors = explore(cases, dry_of, 14, 50 if tier == 'quick' else 700)
     infra = [r for r in recs if r.get('infra')]
@@ -404,7 +490,8 @@ def run(ctx):
     dist = dict(
         kill_points=len(recs), really_killed=sum(1 for r in recs if r['killed']),
         by_mode={k: sum(1 for r in recs if r['case']['mode'] == k) for k in ('first', 'over')},
-        by_kind={k: sum(1 for r in recs if r['case']['kind'] == k) for k in ('pickle', 'json')},
+        by_kind={k: sum(1 for r in recs if r['case']['kind'] == k) for k in ('pickle', 'json', 'ctx')},
+        later_run_backend={k: sum(1 for r in recs if r['case'].get('obs') == k) for k in ('spawn', 'fork')},
         by_point={k: sum(1 for r in recs if r['case']['inj'][0] == k)
                   for k in ('fh_enter', 'fh_exit', 'write_pre', 'write_split', 'write_post', 'close_pre', 'close_post', 'line')},
         by_signal={k: sum(1 for r in recs if r['case']['sig'] == k) for k in ('kill', 'term', 'int', 'exit')},
